@@ -53,6 +53,10 @@ def run(rec):
                          sample={'op': c.name, 'steps_after': 'random'} if k == 0 and ci == 1 else None)
     leg_constructors(rec, rng)
     factorizations(rec, rng)
+    # every live tensor stays valid: restructuring one Array in place (projection that removes a charge block, transposition, sorting
+    # of blocks, relabelling) must leave its shallow copies - which share the block table on creation - valid tensors
+    from .b_C03 import shallow_copy_structure
+    shallow_copy_structure(rec, rng)
 
 
 def leg_constructors(rec, rng):
